@@ -69,12 +69,19 @@ def check(run, prog, tier):
                     free.append(s_)
     if len(free) > 3:
         raise AnalysisError(f"{mr.qual}: decision consults {len(free)} undocumented attributes {[show(f) for f in free]}")
-    for svc_ok, iv_ok, known, mtype, rcode, hres, multi, fvals in itertools.product(
-            (True, False), (True, False), (True, False), ("REQUEST", "REQUEST_NO_RETURN", "NOTIFICATION", "RESPONSE"), ("E_OK", "E_NOT_OK"),
+    # "another service" / "another interface version" are classes of values: besides a fresh representative every literal
+    # the code itself compares the field with is a member (an undocumented wildcard value would otherwise go unnoticed)
+    from ..absint import constants_compared
+    allconds = [c for p in paths for c, _, _, _ in p.conds]
+    other_sid = [0x2222] + sorted(v for v in constants_compared(allconds, lambda tm: tm == ("attr", msg, "service_id")) if isinstance(v, int) and v != 0x1111)[:3]
+    other_iv = [4] + sorted(v for v in constants_compared(allconds, lambda tm: tm == ("attr", msg, "interface_version")) if isinstance(v, int) and v != 3)[:3]
+    for svc_v, iv_v, known, mtype, rcode, hres, multi, fvals in itertools.product(
+            [0x1111] + other_sid, [3] + other_iv, (True, False), ("REQUEST", "REQUEST_NO_RETURN", "NOTIFICATION", "RESPONSE"), ("E_OK", "E_NOT_OK"),
             ("bytes", "none", "malformed"), (False, True), list(itertools.product((False, True), repeat=len(free)))):
         cases += 1
+        svc_ok, iv_ok = svc_v == 0x1111, iv_v == 3
         fmap = dict(zip(free, fvals))
-        vals = {"service_id": 0x1111 if svc_ok else 0x2222, "interface_version": 3 if iv_ok else 4, "method_id": 7,
+        vals = {"service_id": svc_v, "interface_version": iv_v, "method_id": 7,
                 "message_type": mt[mtype], "return_code": rc[rcode], "payload": b"req"}
 
         def leaf(tm):
@@ -131,7 +138,7 @@ def check(run, prog, tier):
         else:
             want = None
         sends = calls_to(p, send.qual)
-        desc = f"service {'ok' if svc_ok else 'other'}, interface {'ok' if iv_ok else 'other'}, method {'known' if known else 'unknown'}, {mtype}, {rcode}, handler {hres}, {'multicast' if multi else 'unicast'}" \
+        desc = f"service {'ok' if svc_ok else hex(svc_v)}, interface {'ok' if iv_ok else hex(iv_v)}, method {'known' if known else 'unknown'}, {mtype}, {rcode}, handler {hres}, {'multicast' if multi else 'unicast'}" \
             + "".join(f", {show(k)}={v}" for k, v in fmap.items())
         if not p.returns():
             failures.setdefault("R1:no-exception", f"{desc}: message_received raises {p.outcome[1]}")
